@@ -666,6 +666,7 @@ func (blockchain *Blockchain) Commit() abciTypes.ResponseCommit {
 	}
 
 	{ // Persist application hash and height
+		blockchain.appDB.StartBatch()
 		blockchain.appDB.SetLastBlockHash(hash)
 		blockchain.appDB.SetLastHeight(height)
 
@@ -674,6 +675,7 @@ func (blockchain *Blockchain) Commit() abciTypes.ResponseCommit {
 		blockchain.appDB.SaveVersions()
 		blockchain.appDB.SaveEmission()
 		blockchain.appDB.SavePrice()
+		blockchain.appDB.WriteBatch()
 	}
 
 	// Clear mempool
